@@ -36,6 +36,8 @@ ASSUMPTIONS = [
 MIN_NONTRIVIAL = 100
 REQUIRED_COUNTERS = ["renders", "inherited_cached_renders", "recompiles_under_the_same_uri", "cache_hits_predicted", "reexecutions_after_invalidate", "backend_calls_logged", "kwargs_checked", "disabled_renders", "included_cached_renders"]
 REQUIRED_COUNTERS += ["anonymous_position_templates"]
+RULE += "; cached sections whose stored output is the empty string (seven shapes) on rec, Beaker memory/file and the in-tree \"plain\" backend"
+REQUIRED_COUNTERS += ["empty_output_templates"]
 
 _st = {"counter": 0}
 
@@ -90,6 +92,16 @@ def setup_worker():
     mod.RecImpl = RecImpl
     sys.modules["verif_c17_rec"] = mod
     mako.cache.register_plugin("rec", "verif_c17_rec", "RecImpl")
+    cwd = os.getcwd()
+    try:
+        # (mako.testing reads ./setup.cfg when it is imported)
+        os.chdir(common.REPO)
+        import mako.testing.fixtures  # noqa: F401  (registers the in-tree "plain" backend)
+        _st["plain"] = True
+    except BaseException:
+        _st["plain"] = False
+    finally:
+        os.chdir(cwd)
     _st.update(Template=Template, TemplateLookup=TemplateLookup, tmp=tempfile.mkdtemp(prefix="c17-"))
     import atexit
 
@@ -505,6 +517,9 @@ def gen_cases(tier, seed):
         yield {"kind": "include", "backend": b}
     for b in ("rec", "beaker-memory"):
         yield {"kind": "anon-positions", "backend": b}
+    # ("plain" is the dictionary backend that Mako ships in mako.testing.fixtures)
+    for b in ("rec", "beaker-memory", "beaker-file", "plain"):
+        yield {"kind": "empty-output", "backend": b}
     n = 4000 if tier == "quick" else 40000
     per = 10
     for i in range(n // per):
@@ -692,6 +707,56 @@ def run_anonymous_positions(case, res):
         res.nontrivial("anon-pos", backend, l1, c1, l2, c2)
 
 
+def run_empty_output(case, res):
+    """a cached section whose output is the EMPTY string has a value like any other: its body is executed once and
+    '' is what is replayed - also when a later execution would have written something"""
+    T = _st["Template"]
+    backend = case["backend"]
+    shapes = [
+        ("def with a code-only body", '<%def name="e()" cached="True"@REG@><% tick("e") %></%def>[${e()}${e()}]', ["[]", "[]", "[]"], {"e": 1}),
+        ("buffered def with a code-only body", '<%def name="e()" cached="True" buffered="True"@REG@><% tick("e") %></%def>[${e()}${e()}]', ["[]", "[]", "[]"], {"e": 1}),
+        ("block that is empty when first rendered", '[<%block name="c" cached="True"@REG@>${"hello " + who if tick("c") > 1 else ""}</%block>]', ["[]", "[]", "[]"], {"c": 1}),
+        ("anonymous block that is empty when first rendered", '[<%block cached="True"@REG@>${"hello " + who if tick("c") > 1 else ""}</%block>]', ["[]", "[]", "[]"], {"c": 1}),
+        ("page with a code-only body", '<%page cached="True"@REG@/><% tick("p") %>', ["", "", ""], {"p": 1}),
+        ("def keyed by its argument, empty for one key only", '<%def name="k(a)" cached="True" cache_key="k-${str(a)}"@REG@>${a * tick("k" + str(a))}</%def>[${k(0)}|${k(3)}|${k(0)}]',
+         ["[0|3|0]", "[0|3|0]", "[0|3|0]"], {"k0": 1, "k3": 1}),
+        ("def whose output is empty text for one key", '<%def name="k(a)" cached="True" cache_key="k-${str(a)}"@REG@>${"x" * a}<% tick("k" + str(a)) %></%def>[${k(0)}|${k(2)}|${k(0)}]',
+         ["[|xx|]", "[|xx|]", "[|xx|]"], {"k0": 1, "k2": 1}),
+    ]
+    for name, text, outs_exp, ticks_exp in shapes:
+        _st["counter"] += 1
+        uid = "%d_%d" % (os.getpid(), _st["counter"])
+        if backend == "plain":
+            if not _st.get("plain"):
+                res.count("plain_backend_not_importable")
+                return
+            impl, base_args, dog = "plain", {}, None
+        else:
+            impl, base_args, dog = make_backend(backend, uid + "_empty")
+        Rec.store.clear()
+        Rec.created.clear()
+        ticks = {}
+
+        def tick(n):
+            ticks[n] = ticks.get(n, 0) + 1
+            return ticks[n]
+
+        res.evaluations += 1
+        res.count("empty_output_templates")
+        what = "backend=%s, %s" % (backend, name)
+        src = text.replace("@REG@", ' cache_region="%s"' % dog if dog else "")
+        try:
+            t = T(src, cache_impl=impl, cache_args=dict(base_args), uri="/empty_%s.html" % uid)
+            outs = [t.render_unicode(tick=tick, who="bob") for _ in range(3)]
+        except Exception as e:
+            res.violate("empty-output-not-replayed", "%s: template %r: %s: %s" % (what, src, type(e).__name__, e))
+            continue
+        if outs != outs_exp or ticks != ticks_exp:
+            res.violate("empty-output-not-replayed", "%s: template %r rendered %r on three renders, expected %r; bodies executed %r, expected %r" % (what, src, outs, outs_exp, ticks, ticks_exp),
+                        witness="a cached section whose stored output is ''")
+        res.nontrivial("empty-output", backend, name)
+
+
 def run_raising(case, res):
     """a cached section whose body raises: the exception propagates, nothing is stored for its key, and the body runs
     again on the next render"""
@@ -761,6 +826,9 @@ def run_case(case):
         return res
     if case["kind"] == "anon-positions":
         run_anonymous_positions(case, res)
+        return res
+    if case["kind"] == "empty-output":
+        run_empty_output(case, res)
         return res
     if case["kind"] == "batch":
         for j in range(case["n"]):
